@@ -25,17 +25,19 @@ type mutation struct {
 }
 
 type e2eSpec struct {
-	Conf          *wConf     `json:"conf"`
-	Files         []wsFile   `json:"files"`
-	Faults        []fault    `json:"faults,omitempty"`
-	Mutations     []mutation `json:"mutations,omitempty"`
-	SenderCrashAt []int      `json:"sender_crash_at,omitempty"` // boundary action numbers (global count)
-	RecvCrashAt   []int      `json:"recv_crash_at,omitempty"`   // k-th mutating fs operation of the receiver (global count)
-	Downtime      int        `json:"downtime_s"`                // virtual seconds a crashed side stays down
-	PreDelivered  int        `json:"pre_delivered,omitempty"`   // first n files are delivered by an earlier run
-	Consume       bool       `json:"consume"`                   // delivered files are taken away by a consumer
-	Events        []wEvent   `json:"events_tail,omitempty"`
-	Note          string     `json:"note,omitempty"`
+	Conf           *wConf     `json:"conf"`
+	Files          []wsFile   `json:"files"`
+	Faults         []fault    `json:"faults,omitempty"`
+	Mutations      []mutation `json:"mutations,omitempty"`
+	QuietMutations []mutation `json:"mutations_when_quiet,omitempty"` // applied once everything has been delivered and confirmed
+	QuietGapHours  int        `json:"quiet_gap_h,omitempty"`          // virtual hours to let pass before them (ages the receiver's memory)
+	SenderCrashAt  []int      `json:"sender_crash_at,omitempty"`      // boundary action numbers (global count)
+	RecvCrashAt    []int      `json:"recv_crash_at,omitempty"`        // k-th mutating fs operation of the receiver (global count)
+	Downtime       int        `json:"downtime_s"`                     // virtual seconds a crashed side stays down
+	PreDelivered   int        `json:"pre_delivered,omitempty"`        // first n files are delivered by an earlier run
+	Consume        bool       `json:"consume"`                        // delivered files are taken away by a consumer
+	Events         []wEvent   `json:"events_tail,omitempty"`
+	Note           string     `json:"note,omitempty"`
 }
 
 type removeObs struct {
@@ -320,6 +322,7 @@ func e2eRun(c *Ctx, seed int64, spec *e2eSpec, dir string) *e2eOutcome {
 		return true
 	}
 	const bound = 3 * time.Hour
+	quietDone := false
 	for {
 		time.Sleep(2 * time.Second)
 		if w.snd.isDead() {
@@ -352,6 +355,19 @@ func e2eRun(c *Ctx, seed int64, spec *e2eSpec, dir string) *e2eOutcome {
 			out.lastDisrupt = lf
 		}
 		if w.vt() > 30*time.Second && allDone() {
+			if len(spec.QuietMutations) > 0 && !quietDone {
+				// second act: new versions appear only now, so that two versions of a
+				// name are never in flight together
+				quietDone = true
+				if spec.QuietGapHours > 0 {
+					time.Sleep(time.Duration(spec.QuietGapHours) * time.Hour)
+					w.recv.restamp()
+				}
+				for _, m := range spec.QuietMutations {
+					mutate(m)
+				}
+				continue
+			}
 			// stay a little longer: late duplicates, cleaner
 			out.quiescentAt = w.vt()
 			break
@@ -437,6 +453,88 @@ func oracleIntegrity(o *e2eOutcome, v vfn) {
 	}
 	for _, d := range o.delivered {
 		check(d.Rel, d.MD5, fmt.Sprintf("delivery event #%d", d.Seq))
+	}
+}
+
+// oraclePollTiming (C02): a status poll for a version is made only after all
+// bytes of that version were transmitted or found already held.  (The start-up
+// recovery poll of a restarted sender is exempt: it asks precisely because it
+// does not know.)
+func oraclePollTiming(o *e2eOutcome, v vfn) {
+	firstScan := map[int]int{} // generation -> seq of its first scan
+	for _, e := range o.events {
+		if e.Kind == "scan" {
+			if _, ok := firstScan[e.Gen]; !ok {
+				firstScan[e.Gen] = e.Seq
+			}
+		}
+	}
+	for _, q := range o.reqs {
+		if q.Class != "poll" {
+			continue
+		}
+		fs, scanned := firstScan[q.Gen]
+		if !scanned || q.Seq < fs {
+			continue // recovery phase
+		}
+		for name, hash := range q.Hashes {
+			var rs []iv
+			var size int64 = -1
+			for _, d := range o.reqs {
+				if d.Seq > q.Seq {
+					continue
+				}
+				switch d.Class {
+				case "data":
+					for pi, p := range d.Parts {
+						if p.Name == name && p.Hash == hash {
+							size = p.Size
+							if pi < len(d.Acked) && d.Acked[pi] {
+								rs = append(rs, iv{p.Beg, p.End})
+							}
+						}
+					}
+				case "partials":
+					for _, p := range d.Parts {
+						if p.Name == name && p.Hash == hash && p.End > p.Beg {
+							rs = append(rs, iv{p.Beg, p.End})
+						}
+					}
+				case "recovery":
+					// "found already held": the receiver reported these leading parts as on record
+					if d.Err == "" {
+						for pi, p := range d.Parts {
+							if pi < d.N && p.Name == name && p.Hash == hash {
+								rs = append(rs, iv{p.Beg, p.End})
+							}
+						}
+					}
+				}
+			}
+			// the bytes the sender had to send for what it asks about (the cache
+			// entry's size can lag behind the content that was hashed; then the
+			// descriptor is (hash of the new content, old size) and the receiver's
+			// validation sorts it out)
+			if qs := q.Sizes[name]; qs > 0 {
+				size = qs
+			}
+			if deliveredVersion(o, name, hash) && covered(rs) == 0 {
+				continue // found already held as a whole (duplicate of a delivered version)
+			}
+			if got := covered(rs); got < size {
+				// known: the tracker counts bytes per name, not ranges, so parts that are
+				// in flight twice are counted twice
+				var sum int64
+				for _, r := range rs {
+					sum += r.e - r.b
+				}
+				fp := "polled-before-fully-transmitted"
+				if sum >= size {
+					fp = "polled-on-byte-count-with-duplicate-parts"
+				}
+				v("C02", "poll-after-all-bytes-transmitted", fp, fmt.Sprintf("poll request #%d asks about %s (hash %s) when the receiver had acknowledged only %d of its %d bytes (bytes acknowledged counting repeats: %d)", q.ID, name, hash, got, size, sum))
+			}
+		}
 	}
 }
 
